@@ -874,7 +874,10 @@ def parse_insn_operand(ctx, insn_name, operand_idx, **kwargs):
     else:
         operand_type = int
 
-    assert operand_type in (str, int)
+    if operand_type not in (str, int):
+        # E.g. a comma where the code block of '.repeat' is expected. Parse
+        # the operand as an expression, the compiler reports the misuse.
+        operand_type = int
 
     if operand_type is str:
         return long_string(ctx, **kwargs)
